@@ -228,9 +228,12 @@ def find_loops(fn, slicer):
         tb = c.target
         if tb is not None and fn.blocks[tb]['t']['t'] == 'switch':
             t = fn.blocks[tb]['t']
-            none_t = [b for v, b in t['targets'] if v == 0]
-            if none_t and none_t[0] not in body:
-                lp.exhaust = (tb, none_t[0])
+            # `for`: 0 => exit, 1 => body;  `while let Some(x) = it.next()`: 1 => body, otherwise => exit
+            some_t = [b for v, b in t['targets'] if v == 1]
+            outs = [b for v, b in t['targets'] if v != 1] + [t['else']]
+            outs = [b for b in outs if b not in body and fn.blocks[b]['t']['t'] != 'unreachable']
+            if some_t and some_t[0] in body and len(set(outs)) == 1:
+                lp.exhaust = (tb, outs[0])
         loops.append(lp)
     return loops
 
